@@ -28,6 +28,8 @@ type Bridge struct {
 	BodyFixed     int
 	PullMode      int
 	PullFixed     int
+	// SrvBodyFailPermille: if >0, the server-side body stream fails (connection lost) after that fraction of the body
+	SrvBodyFailPermille int
 	// ServerRequests are the requests as parsed on the server side.
 	ServerRequests []*http.Request
 	Wire           [][]byte
@@ -106,6 +108,11 @@ func (b *Bridge) RoundTrip(req *http.Request) (*http.Response, error) {
 	st.ChunkMode = b.BodyChunkMode
 	st.FixedChunk = b.BodyFixed
 	st.Tag = "srvbody"
+	if b.SrvBodyFailPermille > 0 && len(body) > 0 {
+		k := len(body) * b.SrvBodyFailPermille / 1000
+		st.Data = body[:k]
+		st.Term = &kernel.InjectedError{What: "connection lost while the request body was arriving"}
+	}
 	sreq.Body = st
 	sreq.RemoteAddr = "192.0.2.1:1234"
 	b.ServerRequests = append(b.ServerRequests, sreq)
